@@ -141,6 +141,8 @@ def step (s : S) (w : List String) : S × String :=
     match wordOf a with
     | some a => ({ s with watch := a :: s.watch }, "-")
     | none => (s, "bad-op")
+  | ["memsum"] => (s, "-")
+  | ["input"] => ({ s with cpu := { s.cpu with regs := { s.cpu.regs with stopped := false } } }, "-")
   | ["c", n] =>
     match n.toNat? with
     | some n => Id.run do
